@@ -107,8 +107,13 @@ AcctBal(a) == [ total |-> AcctCoins(a),
                 immature |-> {c \in AcctCoins(a) : Immature(c)},
                 spendable |-> [mc \in 0..(Mat+1) |-> {c \in AcctCoins(a) : ~Immature(c) /\ Confs(c) >= mc}] ]
 
+\* per key scope and account: what AccountBalances(scope, mc) reports
+ScopeBal(sc, a, mc) == {c \in Coin : Exists(c) /\ spentBy[c] = 0 /\ leased[c] = 0 /\ Attr(c).scope = sc /\ Attr(c).acct = a
+                                      /\ ~Immature(c) /\ Confs(c) >= mc}
+
 Obs == [ tip |-> tip,
          acctBal |-> [a \in Accts |-> AcctBal(a)],
+         scopeBal |-> [sc \in Scopes |-> [a \in Accts |-> [mc \in 0..1 |-> ScopeBal(sc, a, mc)]]],
          st |-> st, spentBy |-> spentBy,
          spendable |-> Spendable,
          bal |-> [mc \in 0..(Mat+1) |-> Counts(mc)],
